@@ -544,7 +544,11 @@ class SVG:
 
                 group.append(new_el)
 
-                if _try_remove_group(group, push_opacity=False):
+                if "clip-path" in group.attrib and "transform" in new_el.attrib:
+                    # the clip applies in the coordinate system of the <use>, not in the
+                    # one the target's own transform sets up: keep them on separate levels
+                    swaps.append((use_el, group))
+                elif _try_remove_group(group, push_opacity=False):
                     _inherit_attrib(group.attrib, new_el)
                     swaps.append((use_el, new_el))
                 else:
